@@ -13,6 +13,14 @@ _KNOWN_VARIANTS = {'core::option::Option::None': 0, 'core::option::Option::Some'
 
 
 def _known_discr(d):
+    # `discriminant(x) == k` of a value built earlier on this path (is_some / is_none / is_ok / is_err, expanded)
+    if d[0] == 'bin' and d[1] in ('Eq', 'Ne') and len(d) == 4:
+        for x, y in ((d[2], d[3]), (d[3], d[2])):
+            if y[0] == 'const' and isinstance(y[2], int) and not isinstance(y[2], bool) and x[0] == 'discr':
+                k = _known_discr(x)
+                if k is not None:
+                    return int((k == y[2]) == (d[1] == 'Eq'))
+        return None
     if d[0] == 'discr':
         x = d[1]
         if x[0] == 'try':
